@@ -34,6 +34,12 @@ def _linalg_args(lem, rng):
         return {'u': u, 'off': off, 'M': M, 'm': m, 'c': c, 'row': row}
     if name == 'ordg_is_dot':
         return {'crow': gens.bits(rng, m + 1), 'gs': gens.bits(rng, m + 1, cols), 'n': m, 'c': c}
+    if name == 'mask_index':
+        n = int(rng.integers(0, 7))
+        mk = gens.bits(rng, n + 2)
+        if rng.integers(0, 5) == 0:
+            mk[:n] = 0
+        return {'m': mk, 'n': n}
     if name == 'lead_char':
         n = int(rng.integers(1, 6)); i = int(rng.integers(0, n))
         row = gens.bits(rng, n); row[:i] = 0; row[i] = 1
